@@ -218,7 +218,7 @@ class HwCheck:
                 H(f"auto:{an}->{vn}", z3.Implies(a == K(1, 1), vl))
             for rn, r in regs:
                 for gn, g in ghosts:
-                    if 3 < r.size() <= g.size(): H(f"auto:{vn}->{rn}=={gn}", z3.Implies(vl, zx(r, g.size()) == g))
+                    if r.size() <= g.size() and (r.size() > 3 or len(vals) * len(regs) * len(ghosts) < 4000): H(f"auto:{vn}->{rn}=={gn}", z3.Implies(vl, zx(r, g.size()) == g))
         if len(lits) <= 24:
             for i, (l1n, l1) in enumerate(lits):
                 for l2n, l2 in lits[i + 1:]:
